@@ -38,7 +38,14 @@
       *asks* (`plainComparable`): a compression pointer may point into the header, and ARCOUNT — which
       `stripTsigRr` decrements — then becomes part of a name (QNAME `C0 0B`; OPT owner `C0 0B` with
       ARCOUNT 256).  For such requests "the same request without the TSIG RR" does not exist and the
-      clause is skipped; every other clause applies.
+      clause is skipped; every other clause applies.  It is also made only when the plain response
+      leaves room for the TSIG RR (`plain size + uncompressed TSIG RR ≤ limit`): within that margin the
+      signed run, having less room, may legitimately end differently — SERVFAIL over TCP because a
+      mandatory record no longer fits (TC is not available over TCP), or another selection of optional
+      additional records (they are dropped one by one, so less room does not give a subset) — and not
+      when the plain response is SERVFAIL while the signed one is not: the plain run may have reached an
+      unrenderable optional record that the signed run dropped earlier for lack of room.  Answers that
+      close to the limit are audited by C04 / C05.
 -/
 import QV.Prelude
 import QV.Spec.Tsig
@@ -380,6 +387,13 @@ def auditResponse (hm : Hm) (sc : Server.Scan) (rv : ReqView) (now : Nat) (udp :
                     (if !udp then [s!"C10:tc-over-tcp"] else []) ++ (if !noData then [s!"C10:tc-with-data-{tr}"] else [])
                   else if pd.tc then []
                   else if !cmp then []     -- not comparable (`plainComparable`)
+                  -- the plain response leaves no room for the TSIG RR: the signed answer may
+                  -- legitimately differ (SERVFAIL over TCP, other optional records); C04 / C05 audit it
+                  else if pb.size + ((canonName rv.keyName).length + 10 + (canonName f.algName).length + 16 +
+                      macLen + otherLen) > limit then []
+                  -- SERVFAIL of the plain run only: it may stem from a record the signed run never reaches
+                  -- (an optional RRset with unrenderable RDATA that does not fit the smaller room)
+                  else if pd.rcode = 2 ∧ d.rcode ≠ 2 then []
                   else
                     (if d.rcode ≠ pd.rcode ∨ d.aa ≠ pd.aa then [s!"C10:answer-header-differs-{tr}"] else []) ++
                     (if !sameMultiset (d.an.map rrKey) (pd.an.map rrKey) then [s!"C10:answer-differs-{tr}"] else []) ++
